@@ -69,7 +69,8 @@ LEDGER_VARIANTS = ["genuine", "genuine-reordered", "key-replaced", "btc-key-repl
                    "missing-signer-target", "wrong-root", "malformed-root", "flip-signature",
                    "ui-extended", "ui-truncated", "pubkeys-not-json", "pubkey-invalid",
                    "legacy-len+1", "legacy-len-1", "legacy-len+32", "genuine-odd-paths",
-                   "odd-paths-hash-in-numeric-order"]
+                   "odd-paths-hash-in-numeric-order", "forged-extra-targets",
+                   "forged-extra-targets", "flip-signature-extra-targets"]
 
 
 def odd_paths(rng, must_have=None):
@@ -200,6 +201,25 @@ def ledger_case(acc, rng, variant, tmpdir, case):
     elif variant == "wrong-root":
         root_hex = g1.pub65(g1.new_key(rng)).hex()
         expect_ok = False
+    elif variant == "forged-extra-targets":
+        # a certificate made by someone who has neither the root nor the device key (the
+        # whole chain hangs from another root), listing extra or repeated targets so that
+        # the failing ancestor is met more than once
+        root_hex = g1.pub65(g1.new_key(rng)).hex()
+        doc["targets"] = rng.choice([["device", "ui", "signer"], ["attestation", "ui", "signer"],
+                                     ["ui", "ui", "signer"], ["signer", "ui", "signer"],
+                                     ["device", "attestation", "ui", "signer"],
+                                     ["ui", "signer", "ui", "signer"]])
+        expect_ok = False
+    elif variant == "flip-signature-extra-targets":
+        nm = rng.choice(["device", "attestation", "ui", "signer"])
+        e = [x for x in doc["elements"] if x["name"] == nm][0]
+        b = bytearray(bytes.fromhex(e["signature"]))
+        b[rng.randrange(4, len(b))] ^= 1 << rng.randrange(8)
+        e["signature"] = bytes(b).hex()
+        doc["targets"] = [nm] * rng.randint(1, 2) + ["ui", "signer"] + \
+            ([nm] if rng.random() < 0.5 else [])
+        expect_ok = False
     elif variant == "malformed-root":
         root_hex = rng.choice(["zz", "", "04" + "00" * 64, "abcd"])
         expect_ok = False
@@ -295,7 +315,8 @@ SGX_VARIANTS = ["genuine", "genuine-reordered", "key-replaced", "keys-swapped-pa
                 "msg-len-32", "header-dot-wildcard", "header-foreign", "header-major6",
                 "missing-quote-target", "wrong-root", "root-not-self-signed", "root-expired",
                 "root-missing-file", "flip-quote-signature", "custom-data-other",
-                "genuine-odd-paths", "odd-paths-hash-in-numeric-order"]
+                "genuine-odd-paths", "odd-paths-hash-in-numeric-order", "forged-extra-targets",
+                "forged-extra-targets", "flip-signature-extra-targets"]
 
 
 def sgx_case(acc, rng, variant, tmpdir, case):
@@ -364,6 +385,20 @@ def sgx_case(acc, rng, variant, tmpdir, case):
     elif variant == "wrong-root":
         k = g2.new_key(rng)
         root_cert = g2.make_cert("root", k.public_key(), "root", k)
+        expect_ok = False
+    elif variant == "forged-extra-targets":
+        k = g2.new_key(rng)
+        root_cert = g2.make_cert("root", k.public_key(), "root", k)
+        names = [e["name"] for e in doc["elements"] if e["name"] != "quote"]
+        doc["targets"] = rng.choice([[rng.choice(names), "quote"], ["quote", "quote"],
+                                     names + ["quote"], ["quote", rng.choice(names), "quote"]])
+        expect_ok = False
+    elif variant == "flip-signature-extra-targets":
+        e = [x for x in doc["elements"] if x["name"] == "quote"][0]
+        b = bytearray(bytes.fromhex(e["signature"]))
+        b[rng.randrange(4, len(b))] ^= 1 << rng.randrange(8)
+        e["signature"] = bytes(b).hex()
+        doc["targets"] = ["quote", "quote"]
         expect_ok = False
     elif variant == "root-not-self-signed":
         # same subject and key as the genuine root, but issued by someone else
